@@ -323,6 +323,11 @@ class NpProxy:
             return r
         return r
 
+    def array(self, a, dtype=None, *args, **kw):
+        if dtype in (SymComplex, SymFloat) or (dtype in (complex, float) and _is_symarr(a)):
+            return S.symview(np.array(_arr(a), dtype=object, *args, **kw))
+        return S.symview(np.array(a, dtype, *args, **kw))
+
     def asarray(self, a, dtype=None, *args, **kw):
         if isinstance(a, S.SymArray) and (dtype is None or dtype is object or dtype == object):
             return a
